@@ -76,7 +76,10 @@ func (x *Exec) sameVal(a, b Value) *Term {
 	case *Term:
 		bv := b.(*Term)
 		if av.sort.FP {
-			return Or(fpcmp("fp.eq", av, bv), And(fpIsNaN(av), fpIsNaN(bv)))
+			if av.isC && bv.isC {
+				return Bool(av.c == bv.c || (av.f() != av.f() && bv.f() != bv.f()))
+			}
+			return mkOp("=", Sort{Bool: true}, "=", 0, av, bv) // identity: NaN = NaN, +0 != -0
 		}
 		if av.sort.Bool {
 			return Not(Or(And(av, Not(bv)), And(Not(av), bv)))
